@@ -418,7 +418,9 @@ func (s *Stream) fillDataToReadBuffer(buf bufferSliceWrapper) error {
 			gopool.Go(func() {
 				for {
 					s.pendingData.moveTo(s.recvBuf)
-					for s.IsOpen() && s.recvBuf.Len() > 0 {
+					// data which arrived before the peer's close is still offered to OnData, only a local close ends that
+					for state := s.getStreamState(); (state == uint32(streamOpened) || state == uint32(streamHalfClosed)) &&
+						s.recvBuf.Len() > 0; state = s.getStreamState() {
 						callback.OnData(s.recvBuf)
 						s.pendingData.moveTo(s.recvBuf)
 					}
